@@ -3,7 +3,9 @@
 # New files are copied; files that exist are 3-way merged (base = the lean/ tree the agent copied, /var/tmp/mergebase/lean).
 src=$1; shift
 for f in "$@"; do
-  if [ ! -e /verif/lean/$f ]; then mkdir -p $(dirname /verif/lean/$f); cp $src/$f /verif/lean/$f; echo "new   $f";
+  if [ "$f" = SodiumModel.lean ]; then   # import list: union of lines, order of first appearance
+    cat /verif/lean/$f $src/$f | awk '!seen[$0]++' > /verif/lean/$f.new && mv /verif/lean/$f.new /verif/lean/$f; echo "union $f"
+  elif [ ! -e /verif/lean/$f ]; then mkdir -p $(dirname /verif/lean/$f); cp $src/$f /verif/lean/$f; echo "new   $f";
   elif cmp -s $src/$f /verif/lean/$f; then echo "same  $f";
   else
     base=/var/tmp/mergebase/lean/$f; [ -e $base ] || base=/dev/null
